@@ -17,7 +17,9 @@ Follows, branch by branch:
 * `TypeVarValue.get_inherent_bounds`, `.can_assign`, `.can_be_assigned`, `.make_bounds_map`
                                       value.py:2183-2216 (bound generation, against a closed value and against
                                       another `TypeVarValue`);
-* `unify_bounds_maps`                 value.py:2784 (per type variable: concatenation).
+* `unify_bounds_maps`                 value.py:2784 (per type variable: concatenation);
+* `Signature.check_call_with_bound_args` signature.py:1259-1285, the type-variable step: unify the bounds
+                                      maps of all parameters, solve once over the union (`solveCall`).
 
 The solver is parametrised by the assignability relation `le a b` = "`b.is_assignable(a, ctx)`"
 (`a` may be assigned to `b`) and by the binary `join a b` = `unite_values(a, b)`, so that the
@@ -207,6 +209,19 @@ end Solver
 /-- `unify_bounds_maps` restricted to one type variable: concatenation in argument order -/
 def unifyBounds (maps : List (List Bound)) : List Bound := maps.flatten
 
+/-- The type-variable step of `Signature.check_call_with_bound_args` (signature.py:1259-1285) for one
+type variable: the bounds maps that the parameters — and, inside one parameter, the individual
+occurrences ("leaves") of the type variable — contributed are unified and solved **once over the
+union**. `groups` lists the contributions in parameter order, leaf by leaf. -/
+def solveCall (le : Ty → Ty → Bool) (join : Ty → Ty → Ty) (groups : List (List Bound)) : Result :=
+  resolve le join (unifyBounds groups)
+
+/-- Each leaf was validated alone when its bounds map was built (`make_bounds_map`); that does not
+make the union solvable, so the call-level solve decides. The call gets past the type-variable
+step exactly when every leaf and the union are solvable. -/
+def callOk (le : Ty → Ty → Bool) (join : Ty → Ty → Ty) (groups : List (List Bound)) : Bool :=
+  (groups.all fun g => (resolve le join g).isOk) && (solveCall le join groups).isOk
+
 /-! ### the instantiation with the shared value models -/
 
 /-- `b.is_assignable(a, ctx)` with a context that does not exclude `Any` -/
@@ -217,5 +232,6 @@ def joinU (a b : Ty) : Ty := unite [a, b]
 
 def solveCa (tbl : ClassTable) : List Bound → Result := solve (leCa tbl) joinU
 def resolveCa (tbl : ClassTable) : List Bound → Result := resolve (leCa tbl) joinU
+def solveCallCa (tbl : ClassTable) : List (List Bound) → Result := solveCall (leCa tbl) joinU
 
 end Pya.C15
